@@ -107,6 +107,49 @@ func lenLeaf(s ssa.Value) *lin {
 	return l
 }
 
+// lenLin: the length of a slice / string value as a linear form; a re-slice s[lo:hi] of a slice or string reads hi - lo
+// (hi defaulting to len(s), lo to 0), anything else is the leaf len(v).
+func lenLin(v ssa.Value, depth int) *lin {
+	if sl, ok := v.(*ssa.Slice); ok && depth < 4 && sl.Max == nil {
+		switch sl.X.Type().Underlying().(type) {
+		case *types.Slice, *types.Basic:
+			hi := lenLin(sl.X, depth+1)
+			if sl.High != nil {
+				hi = linOf(sl.High, 0)
+			}
+			if sl.Low != nil {
+				return hi.addScaled(linOf(sl.Low, 0), -1)
+			}
+			return hi
+		}
+	}
+	return lenLeaf(v)
+}
+
+// indexByteFacts: r = bytes.IndexByte(s, c) / strings.IndexByte(s, c) satisfies -1 <= r < len(s) (documented result:
+// the index of the first instance of c in s, or -1).
+func indexByteFacts(v ssa.Value) []*lin {
+	call, ok := v.(*ssa.Call)
+	if !ok || len(call.Call.Args) != 2 {
+		return nil
+	}
+	o := CalleeObj(call)
+	if o == nil || o.Pkg() == nil || o.Name() != "IndexByte" || (o.Pkg().Path() != "bytes" && o.Pkg().Path() != "strings") {
+		return nil
+	}
+	k := leafKey(v)
+	up := newLin() // r + 1 - len(s) <= 0
+	up.coef[k] = 1
+	up.leaf[k] = v
+	up.c = 1
+	up = up.addScaled(lenLin(call.Call.Args[0], 0), -1)
+	lo := newLin() // -r - 1 <= 0
+	lo.coef[k] = -1
+	lo.leaf[k] = v
+	lo.c = -1
+	return []*lin{up, lo}
+}
+
 // linOf linearises an integer SSA value.
 func linOf(v ssa.Value, depth int) *lin {
 	out := newLin()
@@ -283,6 +326,11 @@ func (p *boundsProver) prove(goal *lin, blk *ssa.BasicBlock, depth int, toSucc *
 	}
 	cand := p.factsAt(blk, toSucc)
 	cand = append(cand, p.hyps...)
+	for _, v := range goal.leaf {
+		if v != nil {
+			cand = append(cand, indexByteFacts(v)...)
+		}
+	}
 	// non-negativity facts for leaves with negative coefficient in the goal
 	var ks []string
 	for k := range goal.coef {
